@@ -43,7 +43,11 @@ fn gen_sheet(r: &mut R) -> Vec<SRule> {
 }
 
 const JUNK_AT: &[&str] = &["@media print { p{color:red;} }", "@import 'x';", "@charset \"u\";", "@x [a(b)] {c}", "@font-face{font-family:x;}", "@media (a:b) and (c) { }", "@x # ;", "@import url(https://f.example/css2?family=R:wght@400;700&display=swap);", "@import url(data:text/css;base64,cHt9);", "@x-junk [a;b] foo;", "@y (a;b) [c;(d;e)] ;", "@z f(a;b){q{r:s;}}"];
-const JUNK_DECL: &[&str] = &["margin:1px solid", "font-size:12pt", "-x-foo:a(b(c))", "border:50%", "x:url(a)", "line-height:1.5em"];
+const JUNK_DECL: &[&str] = &[
+    "margin:1px solid", "font-size:12pt", "-x-foo:a(b(c))", "border:50%", "x:url(a)", "line-height:1.5em",
+    // values of ignored properties with delimiters inside strings, comments and brackets
+    "quotes:\"a;b\" '}'", "font-family:\"x;y\",serif", "list-style-type:'{'", "margin:0 /* ; */ 1px", "border:a /* } */ b", "-x-foo:f(a;b)", "quotes:\"\\\";\" 'z'",
+];
 const JUNK_RULESET: &[&str] = &["%%% {x:y;}", "p{{}}", ".é{color:red;}"];
 
 /// print a sheet; `variant` = None gives the canonical form
